@@ -202,10 +202,10 @@ Qed.
    injectivity *)
 Lemma legal_no_bar_app : forall a b, legal_symbol (a ++ String c_bar b) -> False.
 Proof.
-  unfold legal_symbol. induction a as [|c r IH]; simpl; intros b H.
-  - apply andb_true_iff in H as [H _]. unfold legal_char in H.
-    rewrite Ascii.eqb_refl in H. simpl in H. rewrite andb_false_r in H. simpl in H. discriminate.
-  - apply andb_true_iff in H as [_ H]. eapply IH; eassumption.
+  unfold legal_symbol. induction a as [|c r IH]; intros b H.
+  - cbn [append str_forallb] in H. replace (legal_char c_bar) with false in H by (vm_compute; reflexivity).
+    discriminate.
+  - cbn [append str_forallb] in H. apply andb_true_iff in H as [_ H]. eapply IH; eassumption.
 Qed.
 
 Theorem protect_injective : forall v s1 s2 i1 i2,
